@@ -178,6 +178,8 @@ func fcostOf(fn string, k int) uint64 {
 		return fcost(k, "ESDTLocalMint")
 	case "ESDTNFTAddQuantity":
 		return fcost(k, "ESDTNFTAddQuantity")
+	case "ESDTTransfer":
+		return fcost(k, "ESDTTransfer")
 	}
 	return 0
 }
@@ -217,16 +219,20 @@ func fillCost(g *vmcommon.GasCost, k int) {
 	fill(reflect.ValueOf(&g.BuiltInCost).Elem(), m[vmcommon.BuiltInCostString], 9_000_000_001)
 }
 
+// addrExtra: additional address bytes beyond 32 (the library never fixes the address length; it only
+// compares lengths with each other). Set per run, read by the address constructors.
+var addrExtra = func(t int) int { return 0 }
+
 func userAddr(t int, shard byte) []byte {
-	a := bytes.Repeat([]byte{byte(0x20 + t)}, 32)
+	a := bytes.Repeat([]byte{byte(0x20 + t)}, 32+addrExtra(t))
 	a[0] = 'u'
-	a[31] = shard
+	a[len(a)-1] = shard
 	return a
 }
 func scAddr(t int, shard byte) []byte {
-	a := make([]byte, 32)
+	a := make([]byte, 32+addrExtra(t))
 	a[8], a[9], a[10] = 5, 0, byte(0x40+t)
-	a[31] = shard
+	a[len(a)-1] = shard
 	return a
 }
 
@@ -254,6 +260,16 @@ func runExec(seed int64, r *rand.Rand, stay int, replay []uint8) runResult {
 	acc := &accounts{}
 	for t := 0; t < ntasks; t++ {
 		acc.stores = append(acc.stores, &store{accts: map[string]*acct{}})
+	}
+	// one run in four: tasks use addresses of 36, 40 and 44 bytes (all addresses of one task equally long)
+	addrExtra = func(int) int { return 0 }
+	if r.Intn(4) == 0 {
+		addrExtra = func(t int) int {
+			if t >= 60 {
+				return 0
+			}
+			return 4 * (1 + t%3)
+		}
 	}
 	dns := scAddr(60, 0)
 	not := &notifier{}
@@ -312,7 +328,7 @@ func runExec(seed int64, r *rand.Rand, stay int, replay []uint8) runResult {
 	changes := make([]change, 0, K)
 	recs := make([][]execRec, nexec)
 	plans := make([][]string, nexec)
-	kindsAll := []string{"skv", "create", "adduri", "updattr", "mint", "lburn", "burn", "transfer", "nfttransfer", "multi", "addqty", "nftburn", "owner", "claim", "username", "freeze", "freeze", "roles"}
+	kindsAll := []string{"transfercall", "transfercall", "skv", "create", "adduri", "updattr", "mint", "lburn", "burn", "transfer", "nfttransfer", "multi", "addqty", "nftburn", "owner", "claim", "username", "freeze", "freeze", "roles"}
 	for t := 0; t < nexec; t++ {
 		n := 2 + r.Intn(8)
 		plans[t] = append(plans[t], "create")
@@ -405,7 +421,7 @@ func runExec(seed int64, r *rand.Rand, stay int, replay []uint8) runResult {
 		u := acc.stores[t].get(st.user)
 		if st.frozen {
 			switch op {
-			case "mint", "lburn", "burn", "transfer", "multi":
+			case "mint", "lburn", "burn", "transfer", "transfercall", "multi":
 				return execRec{}, false // the fungible entry is frozen: balance operations would be refused
 			}
 		}
@@ -497,13 +513,21 @@ func runExec(seed int64, r *rand.Rand, stay int, replay []uint8) runResult {
 			}), true
 		case "mint":
 			if ar.Intn(3) == 0 {
-				tightGas[t] = fcost(ar.Intn(K+1), "ESDTLocalMint")
+				tightGas[t] = fcost(ar.Intn(K+1), "ESDTLocalMint") + []uint64{0, 0, 1, 7}[ar.Intn(4)]
 			}
 			return call(t, "ESDTLocalMint", st.user, st.user, [][]byte{tokF, {7}}, u, u, func(k int, _ *vmcommon.VMOutput) uint64 { return fcost(k, "ESDTLocalMint") }), true
 		case "lburn":
 			return call(t, "ESDTLocalBurn", st.user, st.user, [][]byte{tokF, {1}}, u, u, func(k int, _ *vmcommon.VMOutput) uint64 { return fcost(k, "ESDTLocalBurn") }), true
 		case "burn":
 			return call(t, "ESDTBurn", st.user, vmcommon.ESDTSCAddress, [][]byte{tokF, {1}}, u, nil, func(k int, _ *vmcommon.VMOutput) uint64 { return fcost(k, "ESDTBurn") }), true
+		case "transfercall":
+			// transfer and execute inside the shard: both accounts are loaded, what is left of the gas
+			// after the flat price goes to the call; gas is often tight (one schedule's price plus a little)
+			if ar.Intn(2) == 0 {
+				tightGas[t] = fcost(ar.Intn(K+1), "ESDTTransfer") + []uint64{0, 1, 7, 40}[ar.Intn(4)]
+			}
+			c := acc.stores[t].get(st.sc)
+			return call(t, "ESDTTransfer", st.user, st.sc, [][]byte{tokF, {1}, []byte("accept"), {byte(ar.Intn(256))}}, u, c, func(k int, _ *vmcommon.VMOutput) uint64 { return fcost(k, "ESDTTransfer") }), true
 		case "transfer":
 			return call(t, "ESDTTransfer", st.user, st.far, [][]byte{tokF, {1}}, u, nil, func(k int, _ *vmcommon.VMOutput) uint64 { return fcost(k, "ESDTTransfer") }), true
 		case "nfttransfer":
@@ -516,7 +540,7 @@ func runExec(seed int64, r *rand.Rand, stay int, replay []uint8) runResult {
 			}), true
 		case "addqty":
 			if ar.Intn(3) == 0 {
-				tightGas[t] = fcost(ar.Intn(K+1), "ESDTNFTAddQuantity")
+				tightGas[t] = fcost(ar.Intn(K+1), "ESDTNFTAddQuantity") + []uint64{0, 0, 1, 7}[ar.Intn(4)]
 			}
 			return call(t, "ESDTNFTAddQuantity", st.user, st.user, [][]byte{tokN, {1}, {3}}, u, u, func(k int, _ *vmcommon.VMOutput) uint64 { return fcost(k, "ESDTNFTAddQuantity") }), true
 		case "nftburn":
